@@ -466,10 +466,199 @@ def positionalise(repo):
     return n_changed
 
 
+def desugar_split(repo):
+    """`a, b, c = np.split(x, [i, j])`  ->  `a = x[:i]; b = x[i:j]; c = x[j:]`
+    (x a plain name, the cut points listed literally): the rules read blocks
+    of a flat vector as slices."""
+    def fix(stmts):
+        out = []
+        for s in stmts:
+            for attr in ('body', 'orelse', 'finalbody'):
+                sub = getattr(s, attr, None)
+                if isinstance(sub, list) and sub and isinstance(
+                        sub[0], ast.stmt):
+                    setattr(s, attr, fix(sub))
+            for h in getattr(s, 'handlers', []) or []:
+                h.body = fix(h.body)
+            v = getattr(s, 'value', None)
+            if isinstance(s, ast.Assign) and len(s.targets) == 1 \
+                    and isinstance(s.targets[0], (ast.Tuple, ast.List)) \
+                    and isinstance(v, ast.Call) \
+                    and ast.unparse(v.func) in ('np.split', 'numpy.split') \
+                    and len(v.args) == 2 and not v.keywords \
+                    and isinstance(v.args[0], ast.Name) \
+                    and isinstance(v.args[1], (ast.List, ast.Tuple)) \
+                    and len(v.args[1].elts) + 1 == len(s.targets[0].elts) \
+                    and all(isinstance(t, ast.Name)
+                            for t in s.targets[0].elts) \
+                    and v.args[0].id not in [t.id for t in
+                                             s.targets[0].elts[:-1]]:
+                cuts = [None] + list(v.args[1].elts) + [None]
+                for k, t in enumerate(s.targets[0].elts):
+                    new = ast.Assign(
+                        targets=[ast.Name(id=t.id, ctx=ast.Store())],
+                        value=ast.Subscript(
+                            value=ast.Name(id=v.args[0].id, ctx=ast.Load()),
+                            slice=ast.Slice(lower=cuts[k], upper=cuts[k + 1],
+                                            step=None),
+                            ctx=ast.Load()))
+                    ast.copy_location(new, s)
+                    ast.fix_missing_locations(new)
+                    out.append(new)
+                continue
+            out.append(s)
+        return out
+    for c in repo.classes.values():
+        for fn in c.methods.values():
+            fn.body = fix(fn.body)
+    for fn in getattr(repo, 'functions', {}).values():
+        fn.body = fix(fn.body)
+
+
+def desugar_tuple_assign(repo):
+    """`a, b = x, y` -> `a = x; b = y` when no target is read by a later
+    value of the same statement (then the two forms are the same program)."""
+    def fix(stmts):
+        out = []
+        for s in stmts:
+            for attr in ('body', 'orelse', 'finalbody'):
+                sub = getattr(s, attr, None)
+                if isinstance(sub, list) and sub and isinstance(
+                        sub[0], ast.stmt):
+                    setattr(s, attr, fix(sub))
+            for h in getattr(s, 'handlers', []) or []:
+                h.body = fix(h.body)
+            if isinstance(s, ast.Assign) and len(s.targets) == 1 \
+                    and isinstance(s.targets[0], (ast.Tuple, ast.List)) \
+                    and isinstance(s.value, (ast.Tuple, ast.List)) \
+                    and len(s.targets[0].elts) == len(s.value.elts) \
+                    and not any(isinstance(e, ast.Starred)
+                                for e in s.targets[0].elts + s.value.elts):
+                tg = [ast.unparse(t) for t in s.targets[0].elts]
+                safe = True
+                for k, v in enumerate(s.value.elts[1:], 1):
+                    txt = ast.unparse(v)
+                    names = {ast.unparse(x) for x in ast.walk(v)
+                             if isinstance(x, (ast.Name, ast.Attribute,
+                                               ast.Subscript))}
+                    if any(t in names for t in tg[:k]):
+                        safe = False
+                    if any(isinstance(x, ast.Call) for x in ast.walk(v)):
+                        # a call may read an earlier target through self
+                        if any(t.startswith('self.') for t in tg[:k]):
+                            safe = False
+                if safe:
+                    for t, v in zip(s.targets[0].elts, s.value.elts):
+                        new = ast.Assign(targets=[t], value=v)
+                        ast.copy_location(new, s)
+                        ast.fix_missing_locations(new)
+                        out.append(new)
+                    continue
+            out.append(s)
+        return out
+    for c in repo.classes.values():
+        for fn in c.methods.values():
+            fn.body = fix(fn.body)
+    for fn in getattr(repo, 'functions', {}).values():
+        fn.body = fix(fn.body)
+
+
+def propagate_field_aliases(repo):
+    """`m = self._f` at the top level of a method, m never re-assigned and
+    `self._f` never re-bound in the method (nor by a method it calls on
+    self): every later `m` is `self._f`.  The alias is substituted and the
+    assignment dropped, so rules see the field whichever spelling is used."""
+    from .effects import direct
+
+    def rebinds(fn):
+        out = set()
+        for n in ast.walk(fn):
+            tg = []
+            if isinstance(n, ast.Assign):
+                tg = n.targets
+            elif isinstance(n, (ast.AugAssign, ast.AnnAssign)):
+                tg = [n.target]
+            elif isinstance(n, ast.Delete):
+                tg = n.targets
+            for t in tg:
+                for x in (t.elts if isinstance(t, (ast.Tuple, ast.List))
+                          else [t]):
+                    if isinstance(x, ast.Attribute) and isinstance(
+                            x.value, ast.Name) and x.value.id == 'self':
+                        out.add(x.attr)
+        return out
+
+    for cname, c in repo.classes.items():
+        memo = {}
+        for mname, fn in c.methods.items():
+            if any(isinstance(x, (ast.Lambda, ast.FunctionDef, ast.ClassDef,
+                                  ast.Global, ast.Nonlocal))
+                   for x in ast.walk(fn) if x is not fn):
+                continue
+            params = {a.arg for a in fn.args.args + fn.args.kwonlyargs}
+            stores = {}
+            for x in ast.walk(fn):
+                if isinstance(x, ast.Name) and isinstance(
+                        x.ctx, (ast.Store, ast.Del)):
+                    stores[x.id] = stores.get(x.id, 0) + 1
+            own = rebinds(fn)
+            called = set()
+            for x in ast.walk(fn):
+                if isinstance(x, ast.Call) and isinstance(
+                        x.func, ast.Attribute) and isinstance(
+                        x.func.value, ast.Name) and x.func.value.id == 'self':
+                    called.add(x.func.attr)
+            via = set()
+            for m in called:
+                if m not in memo:
+                    k, d = repo.resolve(cname, m)
+                    memo[m] = rebinds(d) if d is not None else set()
+                via |= memo[m]
+            subst = {}
+            keep = []
+            for s in fn.body:
+                if isinstance(s, ast.Assign) and len(s.targets) == 1 \
+                        and isinstance(s.targets[0], ast.Name) \
+                        and isinstance(s.value, ast.Attribute) \
+                        and isinstance(s.value.value, ast.Name) \
+                        and s.value.value.id == 'self' \
+                        and s.targets[0].id not in params \
+                        and stores.get(s.targets[0].id) == 1 \
+                        and s.value.attr not in own \
+                        and s.value.attr not in via:
+                    subst[s.targets[0].id] = s.value
+                    continue
+                keep.append(s)
+            if not subst:
+                continue
+
+            class R(ast.NodeTransformer):
+                def visit_Name(self, n):
+                    if isinstance(n.ctx, ast.Load) and n.id in subst:
+                        return ast.copy_location(ast.Attribute(
+                            value=ast.Name(id='self', ctx=ast.Load()),
+                            attr=subst[n.id].attr, ctx=ast.Load()), n)
+                    return n
+            fn.body = [R().visit(s) for s in keep]
+            ast.fix_missing_locations(fn)
+
+
 def normalise(repo):
     """Inline unknown private helpers in every method (in place)."""
     try:
         positionalise(repo)
+    except Exception:
+        pass
+    try:
+        desugar_split(repo)
+    except Exception:
+        pass
+    try:
+        desugar_tuple_assign(repo)
+    except Exception:
+        pass
+    try:
+        propagate_field_aliases(repo)
     except Exception:
         pass
     try:
